@@ -145,42 +145,24 @@ func (m ClientState) RestrictChain(cdc codec.BinaryCodec, store sdk.KVStore, new
 	si, ti := m.Header.Height, new.Height
 	var err error
 	current := m.Header
-	//si > ti
-	if si.RevisionHeight > ti.RevisionHeight {
-		ConsensusTmp := store.Get(host.ConsensusStateKey(ti))
-		if ConsensusTmp == nil {
+	// si > ti: walk the head's ancestry down to the new header's height
+	for si.RevisionHeight > ti.RevisionHeight {
+		currentTmp := GetParentHeaderFromIndex(store, current)
+		if currentTmp == nil {
 			return sdkerrors.Wrapf(
-				clienttypes.ErrInvalidConsensus, "can not find consensus state for height %s in RestrictChain", ti)
+				clienttypes.ErrInvalidConsensus, "can not find Header for height %s in RestrictChain", si)
 		}
-		var tiConsensus exported.ConsensusState
-		if err = cdc.UnmarshalInterface(ConsensusTmp, &tiConsensus); err != nil {
-			return sdkerrors.Wrapf(ErrUnmarshalInterface, "can not unmarshal ConsensusState interface in RestrictChain ")
-
+		var currently exported.Header
+		if err = cdc.UnmarshalInterface(currentTmp, &currently); err != nil {
+			return sdkerrors.Wrapf(ErrUnmarshalInterface, "can not unmarshal Header interface in RestrictChain ")
 		}
-		tmpConsensus, ok := tiConsensus.(*ConsensusState)
+		tmpHeader, ok := currently.(*Header)
 		if !ok {
 			return sdkerrors.Wrapf(
-				clienttypes.ErrInvalidConsensus, "can not find consensus state for height %s in RestrictChain", ti)
+				clienttypes.ErrInvalidConsensus, "can not find Header for height %s in RestrictChain", si)
 		}
-		root := tmpConsensus.Root
-		headerIndexKey := GetHeaderIndexKeyByEthConsensusRoot(store, common.BytesToHash(root), ti.GetRevisionHeight())
-		currentBytes := store.Get(headerIndexKey)
-		if currentBytes == nil {
-			return sdkerrors.Wrapf(
-				clienttypes.ErrInvalidConsensus, "can not find Header for height %s in RestrictChain", ti)
-		}
-		var currentHeaderInterface exported.Header
-		if err = cdc.UnmarshalInterface(currentBytes, &currentHeaderInterface); err != nil {
-			return sdkerrors.Wrapf(ErrUnmarshalInterface, "can not unmarshal ConsensusState interface in RestrictChain ")
-
-		}
-		currentTmp, ok := currentHeaderInterface.(*Header)
-		if !ok {
-			return sdkerrors.Wrapf(
-				clienttypes.ErrInvalidConsensus, "can not find consensus state for height %s in RestrictChain", ti)
-		}
-		current = *currentTmp
-		si = ti
+		current = *tmpHeader
+		si.RevisionHeight--
 	}
 	newHashes := make([]common.Hash, 0)
 
@@ -239,6 +221,8 @@ func (m ClientState) RestrictChain(cdc codec.BinaryCodec, store sdk.KVStore, new
 		}
 		current = *tmpConsensus
 	}
+	// new is now the header of the new branch directly above the fork point: it replaces its sibling too
+	newHashes = append(newHashes, new.Hash())
 	for i := len(newHashes) - 1; i >= 0; i-- {
 		newTmp := store.Get(EthHeaderIndexKey(newHashes[i], ti.GetRevisionHeight()))
 		if newTmp == nil {
